@@ -90,7 +90,7 @@ fn main() {
                     for &reliable in transports {
                         let cfg = Cfg { reliable, timeout_us: 5_000_000, rto_us: 500_000, gran_us: 1000, rm: 16, rc: 7,
                             mech: mech.to_string(), st_preset: "none".to_string(), fp, max_tx: 10,
-                            user: "alice".to_string(), password: "s3cret-pass".to_string() };
+                            user: "alice".to_string(), password: "s3cret-pass".to_string(), order: 0 };
                         // phases: (prefix steps, hostile message kinds)
                         let mut phases: Vec<(Vec<Step>, Vec<(u8, u16, &str, Value)>)> = Vec::new();
                         let good = if mech == "st" { "mi" } else { "none" };
